@@ -1165,6 +1165,43 @@ func globalAddressUses(P *Program) map[*ssa.Global]bool {
 		}
 		return true
 	}
+	// a slice value is only read: indexed for loads, measured, re-sliced, or handed to a module function whose
+	// parameter is itself only read (two levels)
+	var sliceOnlyRead func(v ssa.Value, d int) bool
+	sliceOnlyRead = func(v ssa.Value, d int) bool {
+		if d > 3 {
+			return false
+		}
+		for _, r := range referrersOf(v) {
+			switch x := r.(type) {
+			case *ssa.DebugRef:
+			case *ssa.IndexAddr:
+				if x.X != v || !onlyLoads(x, 0) {
+					return false
+				}
+			case *ssa.Slice:
+				if x.X != v || !sliceOnlyRead(x, d+1) {
+					return false
+				}
+			case *ssa.Call:
+				if bi, isB := x.Call.Value.(*ssa.Builtin); isB && (bi.Name() == "len" || bi.Name() == "cap") {
+					continue
+				}
+				g := x.Call.StaticCallee()
+				if g == nil || !P.isModuleFunc(g) || g.Blocks == nil {
+					return false
+				}
+				for i, a := range x.Call.Args {
+					if a == v && (i >= len(g.Params) || !sliceOnlyRead(g.Params[i], d+1)) {
+						return false
+					}
+				}
+			default:
+				return false
+			}
+		}
+		return true
+	}
 	for _, fn := range P.ModuleFuncs() {
 		if isInitBody(fn) {
 			continue
@@ -1177,6 +1214,10 @@ func globalAddressUses(P *Program) map[*ssa.Global]bool {
 						continue
 					}
 					switch x := in.(type) {
+					case *ssa.Slice:
+						if x.X == ssa.Value(g) && sliceOnlyRead(x, 0) {
+							continue
+						}
 					case *ssa.UnOp:
 						if x.Op == token.MUL && x.X == ssa.Value(g) {
 							continue
